@@ -563,6 +563,7 @@ def rule_tie(ctx):
                         names[b["local"]] = b["name"]
         # a Vec handed as &mut to a call that also receives a tainted value is filled in that order
         filled = set()
+        sorted_fill = set()
         for n in walk(fn["body"]):
             if n.get("k") == "MethodCall" and any(peel_refs(a).get("local") in tainted for a in n["args"]):
                 for a in n["args"]:
@@ -574,6 +575,18 @@ def rule_tie(ctx):
                             if t.get("k") == "Path" and "local" in t:
                                 filled.add(t["local"])
                                 names[t["local"]] = t.get("name")
+                                # a filler that puts every new element where a binary search over the list says it belongs
+                                # keeps the list in the order of that search's comparator: canonical if it is total
+                                g_ = next((h for h in c.fns if h["def"] in (n.get("inst"), n.get("def"))), None)
+                                if g_ is not None:
+                                    pos_locals = set()
+                                    for y in walk(g_["body"]):
+                                        if y.get("k") == "LetStmt" and y.get("init") is not None and any(z.get("k") == "MethodCall" and z["name"].startswith("binary_search") for z in walk(y["init"])):
+                                            pos_locals |= set(b["local"] for b in pat_bindings(y["pat"]))
+                                    ins_ = [y for y in walk(g_["body"]) if y.get("k") == "MethodCall" and y["name"] == "insert" and len(y["args"]) == 2]
+                                    pushes_ = [y for y in walk(g_["body"]) if y.get("k") == "MethodCall" and y["name"] in ("push", "extend", "append", "push_back")]
+                                    if ins_ and not pushes_ and all(peel_refs(y["args"][0]).get("local") in pos_locals or any(z.get("k") == "MethodCall" and z["name"].startswith("binary_search") for z in walk(y["args"][0])) for y in ins_):
+                                        sorted_fill.add(t["local"])
         n_picks = 0
         from .layout import with_parents
         for x, anc in with_parents(fn["body"]):
@@ -616,7 +629,9 @@ def rule_tie(ctx):
                     total_cmp = bool(extremum_is_total(x, c))
                 except Exception:
                     total_cmp = False
-            if canon or total_cmp:
+            if not (canon or total_cmp) and rt["local"] in sorted_fill:
+                res.undecided("%s : kept-sorted:%s" % (key, names.get(rt["local"])), "`%s` is filled by inserting at the position a binary search returns: it stays in the order of that search's comparator; that the comparator is total on the sample indices is not read (fail closed)" % names.get(rt["local"]), fn_loc(fn, x["ln"]))
+            elif canon or total_cmp:
                 res.ok()
                 res.sample({"pick": inst, "canonical_order": "total sort before the pick" if canon else "tie-break in the comparison"})
             else:
